@@ -14,7 +14,7 @@ SQRTD = z3.Function("SQRTD", z3.Float64(), z3.Float64())
 
 # equivalence over the whole 64-bit domain is out of reach for these (two unrolled 34-iteration loops; FP + uninterpreted
 # sqrt + count-leading-zeros): full-width capped hunt, plus piecewise / per-class proofs where a finite domain is stated
-HARD = {"sqrt_abacus", "hypot", "atan_index_aprox", "atan_aprox"}
+HARD = {"sqrt_abacus", "hypot", "atan_index_aprox", "atan_aprox", "angle_arg_f32", "angle_arg_f64"}
 # clang-14 -std=c++2b folds `if (std::is_constant_evaluated())` to true at run time (libstdc++ implements it with `if consteval`
 # there), so the run-time sqrt of that configuration is sqrt_abacus while c++17 / c++20 use std::sqrt: these wrappers are not
 # compared bit for bit between c++17 and c++2b (the two algorithms agree within 1 ulp by their C13 contract)
@@ -59,7 +59,7 @@ def run(R):
                      "in the replay matrix of every counterexample (g++ -O0/-O2)")
     R.outside.append("sqrt for raw x >= 2^48 (value >= 2^32): sqrt_abacus returns NaN by its guard while the std::sqrt algorithm "
                      "still returns a value; this is outside every stated domain (C13: x < 2^31) and is not compared")
-    R.outside.append("series functions (sin, cos, tan, asin, acos, atan, atan2, *_angle): equivalence is decided with "
+    R.outside.append("series functions (sin, cos, tan, asin, acos, atan, atan2, *_angle) and t*phi/180 for a float t: equivalence is decided with "
                      "symbolic products / quotients as uninterpreted functions; where the optimiser restructures the "
                      "polynomial so that this abstraction is not enough the obligation is a capped hunt, not a proof")
     R.assume_note("optimised IR is executed under machine semantics (nsw/nuw/exact flags ignored, no poison); equality is "
